@@ -27,6 +27,7 @@
 //!     Q<s>:<j>         CommissioningComplete cut by a power loss after its j-th store (then restart)
 //!     V<s>             RevokeCommissioning (timed)
 //!     T                fail-safe timer expiry       X   restart       P   new PASE session
+//!     E<f>             new CASE session of the administrator on fabric f (replaces the old one)
 //! Output line: S <id> <status>@<state>;<status>@<state>;...   (one per op; see `snapshot`)
 //! Other case kinds: H <id> (capacity constants), F <id> (F3 probe, not compared with the model).
 use core::num::NonZeroU8;
@@ -256,6 +257,7 @@ enum Op {
     Timeout,
     Restart,
     NewPase,
+    NewCase(u8),
 }
 
 fn parse_sess(c: char) -> Sess {
@@ -271,6 +273,7 @@ fn parse_op(t: &str) -> Op {
         'T' => return Op::Timeout,
         'X' => return Op::Restart,
         'P' => return Op::NewPase,
+        'E' => return Op::NewCase(t.chars().nth(1).unwrap().to_digit(10).unwrap() as u8),
         _ => {}
     }
     let s = parse_sess(t.chars().nth(1).unwrap());
@@ -488,12 +491,21 @@ fn snapshot(base: &Base, ctl: &Ctl, dev: &Matter<'_>, st: &DevState, kv: &MemKv)
         })?;
         Ok::<_, Error>(format!("{}:{}", n.managed()? as u8, ids.join("+")))
     });
+    let mut case = String::new();
+    for f in 1..=3u8 {
+        case.push(match dev_session(dev, Sess::C(f), 0) {
+            None => '-',
+            Some((true, _)) => 'L',
+            Some((false, _)) => 'E',
+        });
+    }
     format!(
-        "fs={} bc={} w={} p={} F[{}] N[{}] | {}",
+        "fs={} bc={} w={} p={} c={} F[{}] N[{}] | {}",
         fs,
         bc,
         win,
         pase,
+        case,
         fabs,
         nets.unwrap_or_else(|_| "err".into()),
         kv_str(base, ctl, &kv.blobs())
@@ -977,6 +989,10 @@ fn run_incarnation(
                         install(&dev, &ctl, Sess::P, c.pase_gen);
                         "ok".to_string()
                     }
+                    Op::NewCase(f) => {
+                        install(&dev, &ctl, Sess::C(*f), 0);
+                        "ok".to_string()
+                    }
                     Op::Restart => {
                         outs.borrow_mut().push("ok@".to_string());
                         return Next::Boot(i, kv.blobs());
@@ -1064,7 +1080,8 @@ fn run_line(base: &Base, line: &str, out: &mut String) {
             writeln!(out, "S {} {}", f[1], run_s(base, &f)).unwrap();
         }
         "F" => {
-            // F3 probe (property C07): not compared with the model
+            // F3 probe (property C07, repaired on main by 8b70a02): not compared with the model;
+            // the CASE session of the rolled back fabric must be gone for the next fabric with that index
             let g: Vec<&str> = vec!["S", f[1], "1011", "Ap:60:5,Cp:0,Rp:1,Np:77,L2:5:0,T,P,Ap:60:5,Cp:0,Rp:2,Np:78,L2:6:0"];
             let r = run_s(base, &g);
             let steps: Vec<&str> = r.split(';').collect();
@@ -1165,6 +1182,11 @@ fn branch_cases() -> Vec<(&'static str, &'static str)> {
         ("0111", "A1:60:5,C1:1,U1:88,U1:89,U1:88,C1:1"),
         // the CASE session of a rolled back fabric is still there for the next fabric with that index (F3, C07)
         ("1011", "Ap:60:5,Cp:0,Rp:1,Np:77,L2:5:0,T,P,Ap:60:5,Cp:0,Rp:2,Np:78,L2:6:0,Ap:0:0"),
+        // a rollback that removes the fabric drops its CASE session (the caller's own is kept, expired)
+        ("1011", "Ap:60:5,Cp:0,Rp:1,Np:77,L2:5:0,T,L2:6:0,E2,L2:6:0,P,Ap:60:5,Cp:0,Rp:2,Np:78,L2:6:0,A2:0:0,L2:7:0,E2,L2:7:0"),
+        ("1011", "Ap:60:5,Cp:0,Rp:1,Np:77,V2,A2:60:1,E2,A2:60:1,Vp"),
+        ("0111", "A1:60:5,C1:1,U1:88,A1:0:0,L1:5:0,A1:60:5,C1:0,R1:2,N1:77,A1:0:0,L2:5:0,L1:6:0"),
+        ("0121", "A1:60:5,C1:0,R1:2,N1:77,T,L3:5:0,L2:5:0,E3,P,Ap:60:1,Cp:0,Rp:3,Np:71,K3:0,L3:5:0"),
         // revoke without fail-safe, timer without fail-safe
         ("1011", "Vp,T,V1,T"),
         ("0011", "T,X,T"),
@@ -1251,6 +1273,7 @@ fn generate(tier: &str, seed: u64) -> Vec<String> {
                 33 => format!("V{}", s),
                 34..=35 => "T".to_string(),
                 36 => "X".to_string(),
+                37 => format!("E{}", 1 + rng.below(3)),
                 _ => "P".to_string(),
             };
             v.push(t);
